@@ -30,7 +30,7 @@ pub fn def() -> PropDef {
     PropDef {
         id: "C10",
         level: "fault_enumeration",
-        rule: "(A) the real acceptor (BobState::run over an in-memory duplex stream, backed by a real store actor) against a scripted initiator that owns a real replica and at every step chooses from {correct next frame, replay previous frame, Init again, Sync now, Abort(3 reasons), garbage frame with valid length, oversized length prefix, cut inside the next correct frame, close}: every script of <= d steps x accept callback {Allow, Reject(NotFound|AlreadySyncing|InternalServerError)}; (B) the real initiator (run_alice) against a scripted acceptor with the mirrored menu; (C) real initiator against real acceptor through a frame relay that injects one local fault {close the document, disable sync, shut the store actor down} on either side before its k-th incoming frame (and before the first outgoing one), for every k; oracle: both ends return Ok or Err within the deadline, no panic, BobState::into_outcome() callable after every outcome and the document of an accepted session still known (namespace()) so that its end can be reported, a declined request leaves the acceptor's store unchanged, a side whose document was closed / taken out of sync / whose actor was stopped before a frame it has to process reports an error, counters mirror when both ends return Ok; non-trivial = scenarios with at least one deviation from the correct protocol or one injected fault",
+        rule: "(A) the real acceptor (BobState::run over an in-memory duplex stream, backed by a real store actor) against a scripted initiator that owns a real replica and at every step chooses from {correct next frame, replay previous frame, Init again, Sync now, Abort(3 reasons), garbage frame with valid length, oversized length prefix, cut inside the next correct frame, close}: every script of <= d steps x accept callback {Allow, Reject(NotFound|AlreadySyncing|InternalServerError)}, and — wherever the acceptor has to end the session on its own (after a decline or after a frame that is an error for it) — the same script against a peer that keeps its stream open afterwards; (B) the real initiator (run_alice) against a scripted acceptor with the mirrored menu; (C) real initiator against real acceptor through a frame relay that injects one local fault {close the document, disable sync, shut the store actor down} on either side before its k-th incoming frame (and before the first outgoing one), for every k; oracle: both ends return Ok or Err within the deadline, no panic, BobState::into_outcome() callable after every outcome and the document of an accepted session still known (namespace()) so that its end can be reported, a declined request leaves the acceptor's store unchanged, a side whose document was closed / taken out of sync / whose actor was stopped before a frame it has to process reports an error, counters mirror when both ends return Ok; non-trivial = scenarios with at least one deviation from the correct protocol or one injected fault",
         assumptions: &[
             "deadlines are hang detectors only: a scenario that exceeds 5 s is re-run once with 50 s and must hang again to count",
             "the transport is an in-memory duplex stream; QUIC stream semantics (finish/stopped) are outside",
@@ -250,7 +250,7 @@ struct Observed {
 const DEADLINE: Duration = Duration::from_secs(5);
 
 /// (A) real acceptor vs scripted initiator.
-async fn scenario_bob(script: &[Choice], accept: Accept, variant: u8, deadline: Duration) -> Observed {
+async fn scenario_bob(script: &[Choice], accept: Accept, variant: u8, hold: bool, deadline: Duration) -> Observed {
     let mut obs = Observed::default();
     let handle = spawn_actor(&side_entries(1, variant));
     let before = handle_dump(&handle, ns_id(0)).await.ok();
@@ -334,6 +334,14 @@ async fn scenario_bob(script: &[Choice], accept: Accept, variant: u8, deadline: 
                 }
             }
         }
+        if hold && !closed {
+            // a peer that keeps its stream open: the acceptor has to finish on its own; we only
+            // notice that through the end of its stream
+            let mut sink = vec![];
+            let _ = a_r.read_to_end(&mut sink).await;
+            let _ = a_w.shutdown().await;
+            return alice;
+        }
         let _ = a_w.shutdown().await;
         drop(a_w);
         // drain whatever the acceptor still sends
@@ -378,7 +386,7 @@ async fn scenario_bob(script: &[Choice], accept: Accept, variant: u8, deadline: 
 }
 
 /// (B) real initiator vs scripted acceptor.
-async fn scenario_alice(script: &[Choice], variant: u8, deadline: Duration) -> Observed {
+async fn scenario_alice(script: &[Choice], variant: u8, hold: bool, deadline: Duration) -> Observed {
     let mut obs = Observed::default();
     let handle = spawn_actor(&side_entries(0, variant));
     let (a_end, b_end) = tokio::io::duplex(1 << 20);
@@ -453,6 +461,12 @@ async fn scenario_alice(script: &[Choice], variant: u8, deadline: Duration) -> O
                 let _ = b_w.write_all(&b).await;
                 bob.prev_frame = Some(b);
             }
+        }
+        if hold && !closed {
+            let mut sink = vec![];
+            let _ = b_r.read_to_end(&mut sink).await;
+            let _ = b_w.shutdown().await;
+            return bob;
         }
         let _ = b_w.shutdown().await;
         drop(b_w);
@@ -697,8 +711,20 @@ fn judge_fault(case: &Case, obs: &Observed, what: &str) -> Vec<(&'static str, Va
 
 #[derive(Debug, Clone, Serialize, Deserialize)]
 enum Case {
-    Bob { script: Vec<Choice>, accept: Accept, variant: u8 },
-    Alice { script: Vec<Choice>, variant: u8 },
+    Bob {
+        script: Vec<Choice>,
+        accept: Accept,
+        variant: u8,
+        /// the scripted peer keeps its stream open after its last frame
+        #[serde(default)]
+        hold: bool,
+    },
+    Alice {
+        script: Vec<Choice>,
+        variant: u8,
+        #[serde(default)]
+        hold: bool,
+    },
     Fault {
         variant: u8,
         side: u8,
@@ -714,8 +740,8 @@ fn run_case(case: &Case) -> (Observed, String) {
     let go = |deadline: Duration| -> Observed {
         with_local(async {
             match case {
-                Case::Bob { script, accept, variant } => scenario_bob(script, *accept, *variant, deadline).await,
-                Case::Alice { script, variant } => scenario_alice(script, *variant, deadline).await,
+                Case::Bob { script, accept, variant, hold } => scenario_bob(script, *accept, *variant, *hold, deadline).await,
+                Case::Alice { script, variant, hold } => scenario_alice(script, *variant, *hold, deadline).await,
                 Case::Fault { variant, side, fault, .. } => scenario_fault(*variant, *side, *fault, deadline).await.0,
             }
         })
@@ -772,7 +798,18 @@ fn run(ctx: &Ctx, report: &mut Report) {
                     continue;
                 }
                 let nt = script.iter().any(|c| *c != Choice::Correct) || accept != Accept::Allow;
-                one(report, Case::Bob { script: script.clone(), accept, variant: (ordinal % 4) as u8 }, nt, ordinal);
+                one(report, Case::Bob { script: script.clone(), accept, variant: (ordinal % 4) as u8, hold: false }, nt, ordinal);
+                // the same script against a peer that keeps its stream open afterwards, wherever
+                // the acceptor has to end the session on its own: after a decline, or after a
+                // last frame that is an error for it
+                let last = *script.last().unwrap();
+                let ends_by_itself = accept != Accept::Allow
+                    || matches!(last, Choice::Garbage | Choice::Oversized | Choice::AbortNotFound | Choice::AbortAlreadySyncing | Choice::AbortInternal)
+                    || (last == Choice::Init && script.len() >= 2 && script[..script.len() - 1].contains(&Choice::Correct))
+                    || (last == Choice::SyncNow && !script.contains(&Choice::Correct) && !script.contains(&Choice::Init));
+                if ends_by_itself && script.len() <= 2 {
+                    one(report, Case::Bob { script: script.clone(), accept, variant: (ordinal % 4) as u8, hold: true }, true, ordinal);
+                }
             }
         });
     }
@@ -780,11 +817,11 @@ fn run(ctx: &Ctx, report: &mut Report) {
     for variant in 0..4u8 {
         ordinal += 1;
         if ctx.mine(ordinal) {
-            one(report, Case::Bob { script: vec![Choice::Correct; 12], accept: Accept::Allow, variant }, false, ordinal);
+            one(report, Case::Bob { script: vec![Choice::Correct; 12], accept: Accept::Allow, variant, hold: false }, false, ordinal);
         }
         ordinal += 1;
         if ctx.mine(ordinal) {
-            one(report, Case::Alice { script: vec![Choice::Correct; 12], variant }, false, ordinal);
+            one(report, Case::Alice { script: vec![Choice::Correct; 12], variant, hold: false }, false, ordinal);
         }
     }
     // (B)
@@ -796,7 +833,12 @@ fn run(ctx: &Ctx, report: &mut Report) {
             }
             let script: Vec<Choice> = seq.iter().map(|&i| BOB_MENU[i]).collect();
             let nt = script.iter().any(|c| *c != Choice::Correct);
-            one(report, Case::Alice { script, variant: (ordinal % 4) as u8 }, nt, ordinal);
+            let last = *script.last().unwrap();
+            let ends_by_itself = matches!(last, Choice::Garbage | Choice::Oversized | Choice::AbortNotFound | Choice::AbortAlreadySyncing | Choice::AbortInternal | Choice::Init);
+            one(report, Case::Alice { script: script.clone(), variant: (ordinal % 4) as u8, hold: false }, nt, ordinal);
+            if ends_by_itself && script.len() <= 2 {
+                one(report, Case::Alice { script, variant: (ordinal % 4) as u8, hold: true }, true, ordinal);
+            }
         });
     }
     // (C): the number of frames per direction is measured on the fault-free run
